@@ -139,7 +139,9 @@ let run_case (line : Stdlib.String.t) =
         | 0 -> st := mstep !st (MKeys keys)
         | 1 -> cur_reg := z 0; st := mstep !st (MStart (z 0, [z 24; z 40]))
         | 2 -> st := mstep !st (MStop (!cur_reg, [z 24; z 41]))
-        | 4 -> cur_reg := List.hd keys; st := mstep !st (MStart (List.hd keys, [z 113]))
+        | 4 -> (* StartRecord ignores an invalid register: the one being recorded stays current *)
+          if valid_macro_id (List.hd keys) then cur_reg := List.hd keys;
+          st := mstep !st (MStart (List.hd keys, [z 113]))
         | 5 -> st := mstep !st (MStop (!cur_reg, [z 113]))
         | 6 -> st := mstep !st (MRun (List.hd keys, [z 64]));
           out_str "R"; out_zlist (fed_bytes !st);
